@@ -14,6 +14,12 @@ pub struct FunctionInliner {
     warnings: Vec<Warning>,
     warned_functions: HashSet<String>,
     functions: HashMap<String, TypedFunction>,
+    // top-level statement index of each collected declaration, number of leading
+    // declarations, and where the walk currently is (top-level index, fn nesting)
+    positions: HashMap<String, usize>,
+    first_effect: usize,
+    cursor: usize,
+    fn_depth: usize,
     expander: InlineExpander,
 }
 
@@ -25,6 +31,10 @@ impl FunctionInliner {
             warnings: Vec::new(),
             warned_functions: HashSet::new(),
             functions: HashMap::new(),
+            positions: HashMap::new(),
+            first_effect: 0,
+            cursor: 0,
+            fn_depth: 0,
             expander: InlineExpander::new(),
         }
     }
@@ -39,15 +49,29 @@ impl FunctionInliner {
 
     fn collect_functions(&mut self, program: &TypedProgram) {
         self.functions.clear();
+        self.positions.clear();
+        self.first_effect = crate::passes::binders::leading_declarations(&program.stmts);
         // calls are matched by name: a function whose name is also bound elsewhere
         // (redefined, or shadowed by a local, parameter or loop variable) is left alone
         let binders = crate::passes::binders::count_binders(&program.stmts);
-        for stmt in &program.stmts {
+        for (idx, stmt) in program.stmts.iter().enumerate() {
             if let TypedStmtKind::Function(f) = &stmt.kind
                 && crate::passes::binders::is_bound_once(&binders, &f.name)
             {
                 self.functions.insert(f.name.clone(), f.clone());
+                self.positions.insert(f.name.clone(), idx);
             }
+        }
+    }
+
+    // calling a function before its declaration has executed is an undefined-variable error:
+    // a call may only be replaced by the body when the declaration is an earlier top-level
+    // statement, or when the call sits inside a function declared among the program's leading
+    // declarations, which cannot run before all of them have executed
+    fn declared_before_use(&self, name: &str) -> bool {
+        match self.positions.get(name) {
+            Some(pos) => *pos < self.cursor || (self.fn_depth > 0 && *pos < self.first_effect),
+            None => false,
         }
     }
 
@@ -105,9 +129,11 @@ impl FunctionInliner {
             TypedStmtKind::Return(Some(e)) => self.inline_in_expr(e, analysis),
 
             TypedStmtKind::Function(f) => {
+                self.fn_depth += 1;
                 for s in f.body.iter_mut() {
                     self.inline_in_stmt(s, analysis);
                 }
+                self.fn_depth -= 1;
             }
 
             _ => {}
@@ -189,6 +215,7 @@ impl FunctionInliner {
         // now check if this is a call we should inline
         if let TypedExprKind::Call { callee, args } = &expr.kind
             && let TypedExprKind::Identifier(name) = &callee.kind
+            && self.declared_before_use(name)
             && let Some(func) = self.functions.get(name).cloned()
         {
             let aggressive = self.level == OptimizationLevel::Aggressive;
@@ -260,7 +287,9 @@ impl OptimizationPass for FunctionInliner {
         self.collect_functions(program);
         let analysis = ProgramAnalysis::analyze(program);
 
-        for stmt in program.stmts.iter_mut() {
+        for (idx, stmt) in program.stmts.iter_mut().enumerate() {
+            self.cursor = idx;
+            self.fn_depth = 0;
             self.inline_in_stmt(stmt, &analysis);
         }
 
